@@ -30,8 +30,9 @@ fn dir_id(d: AnimationDirection) -> u8 {
 
 /// Postcondition of tags::parse_chunk against the layout: Ok iff the declared number of tags can be
 /// read (layout, UTF-8, direction <= 2), and then tag k has the attributes stored at its position, in file order.
-fn check_tags_chunk(data: &[u8]) {
+fn check_tags_chunk(data: &[u8]) -> bool {
     let got = parse_chunk(data);
+    let decoded_ok = got.is_ok();
     // spec walk
     let mut want: Option<usize> = None; // number of tags when well-formed
     let mut ok = true;
@@ -79,22 +80,24 @@ fn check_tags_chunk(data: &[u8]) {
         (Ok(_), None) => assert!(false, "decoder accepted a tags chunk the format rejects"),
         (Err(_), Some(_)) => assert!(false, "decoder rejected a well-formed tags chunk"),
     }
+    decoded_ok
 }
 
 macro_rules! tags_shape {
-    ($hname:ident, $n:expr) => {
+    ($hname:ident, $n:expr, $u:expr, $can_ok:expr) => {
         crate::verif_harness! {
             /// tags::parse_chunk on every payload of exactly $n bytes. BOUNDED in payload size.
             #[kani::stub(std::fmt::format, crate::verif_spec::stubs::format_stub)]
-            #[kani::unwind(8)]
+            #[kani::unwind($u)]
             fn $hname(s) {
                 let d: [u8; $n] = s.bytes();
-                check_tags_chunk(&d);
-                crate::vcover!(parse_chunk(&d).map_or(false, |t| t.len() >= 1), "a tag decodes");
+                let ok = check_tags_chunk(&d);
+                crate::vcover!(ok || !$can_ok, "a well-formed payload of this size decodes");
+                crate::vcover!(!ok, "a malformed payload of this size is rejected");
             }
         }
     };
 }
-tags_shape!(k_tags_chunk_10, 10); // zero tags
-tags_shape!(k_tags_chunk_30, 30); // one tag with a 1-byte name, or one with empty name + slack
-tags_shape!(k_tags_chunk_49, 49); // two tags (19 + 20 bytes) or one with a longer name
+tags_shape!(k_tags_chunk_10, 10, 3, true); // zero tags
+tags_shape!(k_tags_chunk_30, 30, 4, true); // one tag with a 1-byte name, or one with empty name + slack
+tags_shape!(k_tags_chunk_49, 49, 23, true); // two tags (19 + 20 bytes) or one with a longer name
